@@ -59,4 +59,10 @@ CHECKS.update({
             "text": "For an arbitrary earlier mapping the results file is, after every prefix of save_json's effect trace, exactly the old or a complete new document (single atomic replace); replayed with the k-th write/close/replace failing on real files.",
             "note": _NOTE + _A6},
 })
+
+CHECKS.update({
+    "C14": {"level": "other", "technique": _T + "; object invariant from an arbitrary symbolic state, QF_NRA orthogonality; configurations enumerated; float32 histories bounded",
+            "text": "Mixed: constructor/ranking bijection for every configuration (concrete execution under the model); strategies are distributions, one iteration preserves the regret invariant, orthogonality (n=3), plus-clipping and save/load proved from an arbitrary invariant state with symbolic terminal values and iteration counter; float32 runs bounded.",
+            "note": _NOTE + _A6 + "; orthogonality at n=4 bounded only (QF_NRA beyond both solvers)"},
+})
 NOT_APPLICABLE = {}
